@@ -46,6 +46,16 @@ Small(h) == /\ h.den <= MaxVal
 \* (TLC's integers are 32-bit: the statistics' numerators are scaled together with the contents)
 SmallSt(h) == /\ h.st.w <= 2000000 /\ h.st.s1 <= 2000000 /\ h.st.s1 >= -2000000 /\ h.st.s2 <= 2000000
               /\ \A x \in 1..Len(h.freq) : h.freq[x] <= 100000 /\ h.err2[x] <= 100000
+\* whether a - b has a negative bin is decided exactly only for operands free of float rounding (prec = 0): after a division
+\* by 3 or a percent normalisation, contents that are equal on paper differ by an ulp and the sign of the difference is noise
+ExactPair(a, b) == a.prec = 0 /\ b.prec = 0
+\* two operands can be brought to a common denominator without leaving TLC's integers
+MaxErr2(h) == FoldLeft(LAMBDA acc, x : IF x > acc THEN x ELSE acc, 0, h.err2)
+Commensurable(a, b) ==
+    \/ a.den = b.den
+    \/ /\ a.den <= 64 /\ b.den <= 64
+       /\ MaxErr2(a) * (Lcm2(a.den, b.den) \div a.den) * (Lcm2(a.den, b.den) \div a.den) <= 100000000
+       /\ MaxErr2(b) * (Lcm2(a.den, b.den) \div b.den) * (Lcm2(a.den, b.den) \div b.den) <= 100000000
 On(op) == op \in Ops
 
 KindDtype(kind) == CASE kind = "pyint" -> "i8" [] kind = "pyfloat" -> "f8" [] kind = "f4" -> "f4"
@@ -87,7 +97,7 @@ SameBins(a, b) == a.bins = b.bins
 (* k = i + j *)
 Add(i, j, k) ==
     /\ Live /\ On("Add") /\ Has(i) /\ Has(j) /\ Free(k)
-    /\ SameBins(pool[i], pool[j])
+    /\ SameBins(pool[i], pool[j]) /\ Commensurable(pool[i], pool[j])
     /\ Small(Plus(pool[i], pool[j]))
     /\ pool' = [pool EXCEPT ![k] = Plus(pool[i], pool[j])]
     /\ ghost' = [ghost EXCEPT ![k] = GUnion(ghost[i], ghost[j])]
@@ -95,7 +105,7 @@ Add(i, j, k) ==
 (* i += j *)
 IAdd(i, j) ==
     /\ Live /\ On("IAdd") /\ Has(i) /\ Has(j)
-    /\ SameBins(pool[i], pool[j])
+    /\ SameBins(pool[i], pool[j]) /\ Commensurable(pool[i], pool[j])
     /\ Small(Plus(pool[i], pool[j]))
     /\ pool' = [pool EXCEPT ![i] = [Plus(pool[i], pool[j]) EXCEPT !.name = pool[i].name]]   \* in place: metadata kept
     /\ ghost' = [ghost EXCEPT ![i] = GUnion(ghost[i], ghost[j])]
@@ -128,21 +138,21 @@ MinusF(a, b, free) ==
 
 Sub(i, j, k, free) ==
     /\ Live /\ On("Sub") /\ Has(i) /\ Has(j) /\ Free(k)
-    /\ SameBins(pool[i], pool[j]) /\ CanMinus(pool[i], pool[j])
+    /\ SameBins(pool[i], pool[j]) /\ Commensurable(pool[i], pool[j]) /\ ExactPair(pool[i], pool[j]) /\ CanMinus(pool[i], pool[j])
     /\ pool' = [pool EXCEPT ![k] = MinusF(pool[i], pool[j], free)]
     /\ ghost' = [ghost EXCEPT ![k] = Untracked]
 
 (* i -= j *)
 ISub(i, j, free) ==
     /\ Live /\ On("ISub") /\ Has(i) /\ Has(j) /\ i # j
-    /\ SameBins(pool[i], pool[j]) /\ CanMinus(pool[i], pool[j])
+    /\ SameBins(pool[i], pool[j]) /\ Commensurable(pool[i], pool[j]) /\ ExactPair(pool[i], pool[j]) /\ CanMinus(pool[i], pool[j])
     /\ pool' = [pool EXCEPT ![i] = [MinusF(pool[i], pool[j], free) EXCEPT !.name = pool[i].name]]   \* in place: metadata kept
     /\ ghost' = [ghost EXCEPT ![i] = Untracked]
 
 (* i -= j where some content would become negative: refused, nothing changes *)
 ISubRefused(i, j) ==
     /\ Live /\ On("ISubRefused") /\ Has(i) /\ Has(j) /\ i # j
-    /\ SameBins(pool[i], pool[j]) /\ ~CanMinus(pool[i], pool[j])
+    /\ SameBins(pool[i], pool[j]) /\ Commensurable(pool[i], pool[j]) /\ ExactPair(pool[i], pool[j]) /\ ~CanMinus(pool[i], pool[j])
     /\ UNCHANGED <<pool, ghost>>
 
 (* k = i * c   (also c * i) *)
@@ -320,7 +330,7 @@ IndexRefused(i, what) ==
 
 (* HistogramCollection(pool[1], pool[2]).sum() into slot k: the sum of the members *)
 CollSum(k) ==
-    /\ Live /\ On("CollSum") /\ Has(1) /\ Has(2) /\ Free(k) /\ SameBins(pool[1], pool[2])
+    /\ Live /\ On("CollSum") /\ Has(1) /\ Has(2) /\ Free(k) /\ SameBins(pool[1], pool[2]) /\ Commensurable(pool[1], pool[2])
     /\ Small(Plus(pool[1], pool[2]))
     /\ pool' = [pool EXCEPT ![k] = Plus(pool[1], pool[2])]
     /\ ghost' = [ghost EXCEPT ![k] = GUnion(ghost[1], ghost[2])]
